@@ -18,9 +18,9 @@ FUNCTIONS = ["PointSymmetry.__init__/__mul__/__eq__/transform_reduced_vector/rot
 BOUNDS = dict(
     quick=dict(groups="12 (magnetic) point groups on compatible lattices: C1 Ci C2v D2h(fcc-free) C4v D4h C3v D6h Oh(fcc) grey C4 and D3d, black-white 4'mm' and 6'",
                tensors="rank 0..3, leading non-Cartesian axis of size 0/2, symbolic (complex where conjugation is involved), |data|<=1 for the 1e-12 tolerance",
-               pairs="action law for g in generators + 3 further elements, h in the whole group", transforms="11 (TR,Inv) Transform combinations",
+               pairs="action law for g in generators + 3 further elements, h in the whole group", kinds="every (TR,Inv) Transform combination at rank 2, 2-3 per other rank", transforms="11 (TR,Inv) Transform combinations",
                star="symbolic k in boxes of half width 1/16 around Gamma, zone-boundary, axis, plane and generic centres (5 boxes per group, groups of order <= 16)"),
-    thorough=dict(groups="all 32 point groups, their grey groups and 12 black-white groups", tensors="as quick", pairs="all pairs (g,h)",
+    thorough=dict(groups="all 32 point groups, their grey groups and 12 black-white groups", tensors="as quick", pairs="all pairs (g,h) for groups of order <= 24, generators + 3 further elements x whole group above",
                   transforms="11 (TR,Inv) Transform combinations", star="symbolic k in boxes of half width 1/8 tiling [-1/2,1/2]^3 (125 boxes) for groups of order <= 16, 9 boxes for larger"))
 EXPLANATION = ("Groups are built by the real PointGroup.__init__ from concrete generators; closure, identity, inverses, orthogonality and lattice invariance are decided "
                "by running the real __mul__/__eq__/transform_reduced_vector on the exact rational values of the stored doubles. The real transform_tensor, symmetrize_tensor, "
@@ -526,12 +526,25 @@ def star_regions(tier, order):
     planes = [(c, ds, h) for c in ((0, 0, 0), (H, H, H)) for ds in (((1, 0, 0), (0, 1, 0)), ((1, 0, 0), (0, 0, 1)), ((1, 1, 0), (0, 0, 1)))]
     boxes = [(c, E3, h) for c in ((0, 0, 0), (H, 0, 0), (0, 0, Fr(5, 16)), (Q, Q, 0))]
     if tier == "quick":
-        return [generic] + lines[:6] + (planes[:2] if order <= 8 else []) + (boxes[:2] if order <= 4 else [])
-    out = [generic] + lines + (planes if order <= 16 else planes[:2])
-    if order <= 8:
+        return [generic] + (lines[:6] if order <= 16 else []) + (planes[:2] + boxes[:2] if order <= 4 else [])
+    out = [generic] + lines
+    if order <= 4:
         cs = [Fr(i, 4) - H + Fr(1, 8) for i in range(4)]
-        out += [((a, b, c), E3, Fr(1, 8)) for a in cs for b in cs for c in cs] if order <= 4 else boxes
+        out += planes + [((a, b, c), E3, Fr(1, 8)) for a in cs for b in cs for c in cs]
     return out
+
+
+def kinds_for(tier, rank, lead):
+    names = [k[0] for k in tr_kinds(rank, lead)]
+    if tier == "quick":
+        sel = {(0, (2,)): ["odd/odd", "oddconj/ident"], (1, (2,)): ["odd/ident", "ident/odd", "conj/odd"], (2, (2,)): names, (2, ()): [],
+               (3, ()): ["oddtrans021/odd", "oddtrans102/ident"]}[rank, lead]
+        return [n for n in names if n in sel]
+    if (rank, lead) == (2, ()):
+        return ["trans/ident", "swap/odd"]
+    if rank == 3:
+        return ["ident/ident", "odd/odd", "oddconj/ident", "trans/ident", "oddtrans021/odd", "oddtrans102/ident"]
+    return names
 
 
 def cases(tier, seed):
@@ -542,15 +555,10 @@ def cases(tier, seed):
         out.append(Case(f"axioms {g}", case_axioms, dict(gname=g), timeout=900))
         out.append(Case(f"products {g}", case_products, dict(gname=g)))
         for rank, lead in ((0, (2,)), (1, (2,)), (2, (2,)), (2, ()), (3, ())):
-            for kind in tr_kinds(rank, lead):
-                nm = kind[0]
-                if q and (order > 16 and rank == 3 and nm not in ("oddtrans021/odd", "odd/ident")):
-                    continue
-                if q and rank == 2 and lead == () and nm not in ("trans/ident", "swap/odd"):
-                    continue
-                out.append(Case(f"action {g} rank={rank} lead={lead} {nm}", case_action, dict(gname=g, rank=rank, lead=lead, kind=nm, allpairs=not q), timeout=1500))
-                if not (q and order > 16 and rank == 3):
-                    out.append(Case(f"project {g} rank={rank} lead={lead} {nm}", case_project, dict(gname=g, rank=rank, lead=lead, kind=nm), timeout=900))
+            for nm in kinds_for(tier, rank, lead):
+                allpairs = not q and order <= 24
+                out.append(Case(f"action {g} rank={rank} lead={lead} {nm}", case_action, dict(gname=g, rank=rank, lead=lead, kind=nm, allpairs=allpairs), timeout=1500))
+                out.append(Case(f"project {g} rank={rank} lead={lead} {nm}", case_project, dict(gname=g, rank=rank, lead=lead, kind=nm), timeout=900))
         for c, ds, h in star_regions(tier, order):
             out.append(Case(f"star {g} k={[str(x) for x in c]}+t*{list(ds)} |t|<={h}", case_star, dict(gname=g, centre=c, dirs=ds, half=h), timeout=1500))
     for rank, lead in ((0, (2,)), (1, ()), (2, (2,)), (3, ()), (3, (2,))):
